@@ -104,7 +104,7 @@ def _common_labels(r, sub, a, fin):
         r.label("single_row_or_col")
 
 
-def _nan_rule(r, sub, a, fin, out, unlabelled_ok=None, maxcell_bucket=None):
+def _nan_rule(r, sub, a, fin, out, unlabelled_ok=None, maxcell_bucket=None, where_fn=None):
     """non-finite => NaN ; finite => labelled (except where unlabelled_ok)."""
     if out.shape != a.shape:
         r.fail(sub + ".shape", "output shape %s for input %s" % (out.shape, a.shape))
@@ -122,6 +122,8 @@ def _nan_rule(r, sub, a, fin, out, unlabelled_ok=None, maxcell_bucket=None):
         v = a[y, x]
         fv = a[fin]
         where = "max cell" if v == fv.max() else ("min cell" if v == fv.min() else "interior value")
+        if where_fn is not None:
+            where = where_fn(v)
         b = "%s.finite_unlabelled[%s]" % (sub, where)
         if maxcell_bucket and where == "max cell":
             b = maxcell_bucket
@@ -209,7 +211,7 @@ def _check_first_bin(r, sub, a, fin, bins, new_values, out):
     idx = np.full(a.shape, -1)
     idx[fin] = O.first_bin(a64[fin], bins64)
     above = fin & (idx < 0)
-    if not _nan_rule(r, sub, a, fin, out, unlabelled_ok=above):
+    if not _nan_rule(r, sub, a, fin, out, unlabelled_ok=above, where_fn=lambda v: _position(float(v), bins64)):
         return idx
     exp = np.full(a.shape, np.nan, dtype="float32")
     exp[idx >= 0] = nv32[idx[idx >= 0]]
@@ -381,6 +383,15 @@ def body_equal_interval(case, ctx):
 
 # ====================================================================== quantile
 
+def narrow_int_gap_overflow(a):
+    """Two neighbouring sorted values further apart than the raster's own integer dtype can hold: numpy.percentile forms
+    b - a in that dtype (wraps around).  Only used to steer generators / name the bucket of this recorded defect class."""
+    if a.dtype.kind != "i" or a.dtype.itemsize > 4:
+        return False
+    v = np.sort(a.ravel().astype("int64"))
+    return bool(v.size > 1 and np.diff(v).max() > np.iinfo(a.dtype).max)
+
+
 def body_quantile(case, ctx):
     from xrspatial.classify import quantile
     a = dec_arr(case["raster"])
@@ -388,7 +399,9 @@ def body_quantile(case, ctx):
     fin = _finite_mask(a)
     r = R()
     if "k_steered_from" in case:
-        r.excl = 1
+        r.excl += 1
+    if case.get("steered_narrow_int"):
+        r.excl += 1
     _common_labels(r, "quantile", a, fin)
     vals = a[fin]
     if vals.size == 0:
@@ -401,6 +414,9 @@ def body_quantile(case, ctx):
         maxcell_bucket = "quantile.max_cell_unlabelled@float_percentile_vector_ends_below_100"
     elif pclass == "k+1":
         maxcell_bucket = "quantile.max_cell_label_read_past_new_values@float_percentile_vector_has_k+1_entries"
+    narrow = narrow_int_gap_overflow(a)
+    if narrow:
+        r.label("narrow_int_gap_overflow")
     out = np.asarray(_quiet_call(quantile, _da(a), k=k).values)
     if not _nan_rule(r, "quantile", a, fin, out, maxcell_bucket=maxcell_bucket):
         return r
@@ -438,7 +454,10 @@ def body_quantile(case, ctx):
             if maxcell_bucket and u == uniq[-1]:
                 r.fail(maxcell_bucket, "[quantile.band] " + msg)
             else:
-                r.fail("quantile.band[label %s percentile interval]" % ("below" if of[bad][0] < lo else "above"), msg)
+                if narrow:
+                    r.fail("quantile.band@neighbour_gap_exceeds_int_dtype_max_overflows_in_numpy_percentile", msg)
+                else:
+                    r.fail("quantile.band[label %s percentile interval]" % ("below" if of[bad][0] < lo else "above"), msg)
     if on_break:
         r.label("value_on_interior_break")
     return r
@@ -477,7 +496,7 @@ def body_natural_breaks(case, ctx):
     fin = _finite_mask(a)
     r = R()
     if "ns_steered_from" in case:
-        r.excl = 1
+        r.excl += 1
     _common_labels(r, "natural_breaks", a, fin)
     vals = a[fin]
     if vals.size == 0:
@@ -532,6 +551,22 @@ def body_natural_breaks(case, ctx):
     got = O.partition_ssd(v64, of[fin])
     tol = (8 * n + 16) * O.EPS64 * float((v64 * v64).sum()) + 1e-9 * opt
     r.label("opt=0" if opt == 0 else "opt>0")
+    # Recorded defect class: when the error bound of the DP's one-pass variance reaches the cost of the cheapest two-value
+    # class (min gap^2 / 2), a class of distinct values can evaluate to <= 0, the DP leaves classes empty and the break
+    # extraction then indexes data[-1]: non-ascending bins.  Outside this regime the DP cannot prefer an empty class, so the
+    # realised partition is the DP's and the forward bound applies.  Inside it the optimality assertion is skipped (counted),
+    # except in the dedicated probe.
+    mingap = float(np.diff(uniq.astype("float64")).min()) if len(uniq) > 1 else np.inf
+    if tol >= mingap * mingap / 2:
+        r.label("cancellation_regime")
+        if not case.get("probe_cancellation"):
+            r.excl += 1
+            return r
+        if got > opt + tol:
+            r.fail("natural_breaks.suboptimal_partition@one_pass_variance_cancels[error bound >= cheapest two-value class]",
+                   "within-class SSD %r > optimum %r (+tol %.3g); k=%d values %s labels %s"
+                   % (got, opt, tol, k, v64.tolist()[:20], of[fin].astype(int).tolist()[:20]))
+        return r
     if got > opt + tol:
         nonf32 = bool(a.dtype.kind != "f" or a.dtype == np.float64) and bool((v64.astype("float32").astype("float64") != v64).any())
         r.fail("natural_breaks.suboptimal_partition[%s]" % ("values not float32-representable" if nonf32 else "float32-representable values"),
@@ -552,13 +587,16 @@ BODIES = {"binary": body_binary, "reclassify": body_reclassify, "reclass_sweep":
 # integer pools are spread by an index-dependent offset.  The shrinker still simplifies towards small shapes.
 
 PAL_QUARTERS = [i / 4.0 for i in range(-12, 21)]
-PAL_NONF32 = [round(0.1 * i, 10) for i in range(-5, 25) if i % 5] + [12345.6789, 3.3333333333, 1000000.123, 1.0 / 3, 0.001, 2.3e-5, 777.7]
-PAL_INTBIG = [0, 5, -7, 16777216, 16777217, 16777219, 33554433, 100000001, 100000003, 123456789, -16777217, 16777221, 50000001, 50000003, 99999999]
+PAL_NONF32 = [round(0.1 * i, 10) for i in range(-5, 25) if i % 5] + [3.3333333333, 1.0 / 3, 0.001, 2.3e-5, 7.7]
+# large, far apart (the float64 one-pass variance of the Jenks DP cancels catastrophically for large close values - a recorded
+# defect class; these pools stay outside it by construction so that optimality remains assertable on non-float32 data)
+PAL_NONF32BIG = [12345.6789, 1000000.123, 54321.001, 250000.7, 777.7, 99999.99, -33333.3, 500000.05, 0.1, -765432.1, 3456.789]
+PAL_INTBIG = [0, 16777217, -16777217, 33554433, -33554433, 50331649, 67108865, 83886081, 100000001, 123456789, -50000001]
 INT_RANGE = {"int16": (-32768, 32767), "uint8": (0, 255), "uint16": (0, 65535), "int32": (-2 ** 31, 2 ** 31 - 1), "int64": (-2 ** 63, 2 ** 63 - 1)}
-SIDES = [4, 3, 5, 1, 2, 6, 7, 8, 9, 10]
+SIDES = [2, 1, 3, 4, 5, 6, 7, 8, 9, 10]        # simplest first: the shrinker ends on a 2x2 / 1xN raster
 POOL_SIZES = [8, 5, 3, 12, 2, 16, 4, 6, 1, 7, 9, 10, 14, 20, 24]
 K_LIST = [4, 3, 5, 2, 6, 7, 8, 9] * 4 + list(range(10, 41))
-KINDS = {"float64": ["dec3", "nonf32", "smallint", "quarters", "signed", "off6", "off6wide", "nonf32", "dec3"],
+KINDS = {"float64": ["dec3", "nonf32", "smallint", "quarters", "signed", "off6", "off6wide", "nonf32big", "dec3"],
          "float32": ["dec2_f32", "smallint", "quarters", "signed", "dec2_f32"],
          "int64": ["smallint", "intbig", "signed", "intwide"], "int32": ["smallint", "intbig", "signed", "intwide"],
          "int16": ["smallint", "signed", "intwide"], "uint8": ["smallint", "intwide"]}
@@ -618,10 +656,12 @@ def value_pool(draw, dtype, min_size=1, free=False, kinds=None):
         pool = draw(subset(PAL_QUARTERS, size))
     elif kind == "nonf32":
         pool = draw(subset(PAL_NONF32, size))
+    elif kind == "nonf32big":
+        pool = draw(subset(PAL_NONF32BIG, size))
     elif kind == "dec3":
         pool = [x / 1000.0 for x in draw(spread_ints(size, -100000, 100000))]
     elif kind == "off6":
-        pool = [1e6 + x / 1000.0 for x in draw(spread_ints(size, 0, 100000))]
+        pool = [1e6 + x / 1000.0 for x in draw(spread_ints(size, 0, 10 ** 8))]
     elif kind == "off6wide":
         pool = [x / 1000.0 + 0.000123 for x in draw(spread_ints(size, 0, 10 ** 9))]
     elif kind == "free":
@@ -709,7 +749,7 @@ def reclassify_cases(draw, max_side):
     dtype = draw(st.sampled_from(DTYPES6))
     isf = dtype.startswith("float")
     bkind = draw(st.sampled_from(["int", "half", "decimal", "int", "mixed"]))
-    n = draw(st.sampled_from([4, 3, 7, 1, 2, 5, 6, 8, 9, 10, 11, 12]))
+    n = draw(st.sampled_from([1, 2, 3, 4, 5, 6, 7, 8, 9, 10, 11, 12]))
     if bkind == "int":
         base = list(range(-5, 21))
     elif bkind == "half":
@@ -803,6 +843,10 @@ def quantile_cases(draw, max_side):
         # recorded defect class (float percentile vector of this k): steer to the next unaffected k, count it
         case["k_steered_from"] = k
         case["k"] = _good_k(k)
+    if narrow_int_gap_overflow(dec_arr(spec)):
+        # recorded defect class (int16 raster with neighbours > 32767 apart): halve the values, count it
+        spec["data"] = [[v // 2 for v in row] for row in spec["data"]]
+        case["steered_narrow_int"] = True
     return case
 
 
@@ -838,7 +882,7 @@ def natural_breaks_nonf32_cases(draw, max_side):
     dtype = draw(st.sampled_from(["float64", "float64", "int64", "float64", "int32"]))
     h, w = draw(shape(max_side))
     if dtype == "float64":
-        kind, pool = draw(value_pool(dtype, kinds=["nonf32", "dec3", "off6", "nonf32", "off6wide", "dec3"]))
+        kind, pool = draw(value_pool(dtype, kinds=["nonf32", "dec3", "off6", "nonf32big", "off6wide", "dec3"]))
         specials = ["nan", "inf", "nan", "-inf"]
     else:
         kind, pool = draw(value_pool(dtype, kinds=["intbig"]))
@@ -869,6 +913,17 @@ def quantile_badk_cases():
     """Dedicated probe of the recorded quantile defect classes (kept tiny; every other generator steers around them)."""
     for k in BAD_K_SHARD_KS:
         yield {"sub": "quantile", "pal": "smallint", "raster": {"dtype": "float64", "data": [[0.0, 1.0, 2.0, 3.0, 4.0]]}, "k": k}
+
+
+def quantile_narrow_int_cases():
+    yield {"sub": "quantile", "pal": "intwide", "raster": {"dtype": "int16", "data": [[-10923], [21845], [-10923], [21845]]}, "k": 4}
+
+
+def nb_cancellation_cases():
+    yield {"sub": "natural_breaks", "pal": "off6", "raster": {"dtype": "float64", "data": [[1000000.001, 1000000.002, 0.0]]}, "k": 3,
+           "probe_cancellation": True}
+    yield {"sub": "natural_breaks", "pal": "intbig", "raster": {"dtype": "int64", "data": [[0, 100000001, 100000003]]}, "k": 3,
+           "probe_cancellation": True}
 
 
 def nb_sample_defect_cases():
@@ -908,6 +963,10 @@ def shards(tier):
                 space="reclassify sweep %s: one duplicated neighbour at every position d, n=%d..%d step %d" % (dt, ns[b], nmax, nblk), size=len(cases))))
     out.append(("defect_quantile_badk", lambda ctx: drive_enum(ctx, body_quantile, quantile_badk_cases(),
                                                                 space="quantile k in %s (recorded defect classes)" % BAD_K_SHARD_KS, size=len(BAD_K_SHARD_KS), stop_on_first=False)))
+    out.append(("defect_quantile_narrow_int", lambda ctx: drive_enum(ctx, body_quantile, quantile_narrow_int_cases(),
+                                                                      space="quantile int16 neighbour gap > 32767 (recorded defect class)", size=1, stop_on_first=False)))
+    out.append(("defect_nb_cancellation", lambda ctx: drive_enum(ctx, body_natural_breaks, nb_cancellation_cases(),
+                                                                  space="natural_breaks large close values (recorded defect class)", size=2, stop_on_first=False)))
     out.append(("defect_nb_sample", lambda ctx: drive_enum(ctx, body_natural_breaks, nb_sample_defect_cases(),
                                                             space="natural_breaks degenerate samples (recorded defect classes)", size=2, stop_on_first=False)))
     return out
